@@ -73,42 +73,52 @@ def ensure_prim():
         run(["javac", "-cp", TLA_JAR, "Prim.java"], cwd=SPEC)
 
 
-def build_harness(variant="default"):
+def build_harness(variant="default", bins=None):
     """cargo build of the harness (path dependency on /repo => rebuilt from the
-    working tree).  Returns a dict bin-name -> path of a private copy of the binary."""
-    if variant in _built:
-        return _built[variant]
+    working tree).  `bins`: names of the binaries needed (default: all).  Returns a
+    dict bin-name -> path of a private copy of the binary (so later builds of another
+    feature variant do not overwrite it)."""
+    key = (variant, tuple(sorted(bins)) if bins else None)
+    if key in _built:
+        return _built[key]
     lock_src = os.path.join(REPO, "Cargo.lock")
     lock_dst = os.path.join(HARNESS, "Cargo.lock")
     if not os.path.exists(lock_dst):
         shutil.copy(lock_src, lock_dst)
     feats = VARIANTS[variant]
-    cmd = ["cargo", "build", "--release", "--offline", "--bins"]
+    cmd = ["cargo", "build", "--release", "--offline"]
+    if bins:
+        for b in bins:
+            cmd += ["--bin", b]
+    else:
+        cmd += ["--bins"]
     if feats:
         cmd += ["--features", ",".join(feats)]
     t0 = time.time()
+    # one cargo at a time in this target dir: cargo takes its own lock, we only retry a stale lock file
     p = run(cmd, cwd=HARNESS, timeout=3600, check=False)
-    if p.returncode != 0:
-        # a stale lock file (repo dependencies changed) -> refresh once
+    if p.returncode != 0 and "Cargo.lock" in (p.stdout or ""):
         shutil.copy(lock_src, lock_dst)
         p = run(cmd, cwd=HARNESS, timeout=3600, check=False)
-        if p.returncode != 0:
-            raise ToolError("harness build failed (%s):\n%s" % (variant, p.stdout[-6000:]))
+    if p.returncode != 0:
+        raise ToolError("harness build failed (%s):\n%s" % (variant, p.stdout[-6000:]))
     outdir = os.path.join(WORK, "bin", variant)
     os.makedirs(outdir, exist_ok=True)
     rel = os.path.join(HARNESS, "target", "release")
-    bins = {}
-    for name in os.listdir(rel):
+    res = {}
+    names = bins or [n for n in os.listdir(rel)
+                     if os.path.isfile(os.path.join(rel, n)) and os.access(os.path.join(rel, n), os.X_OK) and "." not in n]
+    for name in names:
         path = os.path.join(rel, name)
-        if os.path.isfile(path) and os.access(path, os.X_OK) and "." not in name:
-            dst = os.path.join(outdir, name)
-            if not os.path.exists(dst) or sha256_file(dst) != sha256_file(path):
-                shutil.copy2(path, dst + ".tmp")
-                os.replace(dst + ".tmp", dst)
-            bins[name] = dst
-    log("harness[%s] built in %.1fs" % (variant, time.time() - t0))
-    _built[variant] = bins
-    return bins
+        dst = os.path.join(outdir, name)
+        if not os.path.exists(dst) or sha256_file(dst) != sha256_file(path):
+            tmp = "%s.tmp%d" % (dst, os.getpid())
+            shutil.copy2(path, tmp)
+            os.replace(tmp, dst)
+        res[name] = dst
+    log("harness[%s] %s built in %.1fs" % (variant, ",".join(names), time.time() - t0))
+    _built[key] = res
+    return res
 
 
 def bin_hash(path):
